@@ -105,9 +105,179 @@ def help_text(text, extra_terms=()):
     return '\n'.join(out)
 
 
+_DEF = re.compile(r'^\(assert \(= (sh_[^\s()]+) (.*)\)\)$')
+
+
+def _flat(t):
+    if t.startswith('(str.++ '):
+        out = []
+        for p in smt.split_top(t[8:-1]):
+            out += _flat(p)
+        return out
+    return [t]
+
+
+def _merge_lits(ps):
+    out = []
+    for p in ps:
+        if p == '""':
+            continue
+        if smt.is_str_lit(p) and out and smt.is_str_lit(out[-1]):
+            out[-1] = smt.str_lit(smt.str_lit_value(out[-1]) + smt.str_lit_value(p))
+        else:
+            out.append(p)
+    return out
+
+
+def _cancel(pa, pb):
+    """cancel common syntactic prefix and suffix pieces (literals are compared character-wise)"""
+    pa, pb = list(pa), list(pb)
+    for rev in (False, True):
+        while pa and pb:
+            x, y = (pa[-1], pb[-1]) if rev else (pa[0], pb[0])
+            if x == y:
+                if rev:
+                    pa.pop(); pb.pop()
+                else:
+                    pa.pop(0); pb.pop(0)
+            elif smt.is_str_lit(x) and smt.is_str_lit(y):
+                vx, vy = smt.str_lit_value(x), smt.str_lit_value(y)
+                if rev:
+                    vx, vy = vx[::-1], vy[::-1]
+                n = 0
+                while n < len(vx) and n < len(vy) and vx[n] == vy[n]:
+                    n += 1
+                if n == 0:
+                    break
+                rx, ry = vx[n:], vy[n:]
+                if rev:
+                    rx, ry = rx[::-1], ry[::-1]
+                    pa.pop(); pb.pop()
+                    if rx:
+                        pa.append(smt.str_lit(rx))
+                    if ry:
+                        pb.append(smt.str_lit(ry))
+                else:
+                    pa.pop(0); pb.pop(0)
+                    if rx:
+                        pa.insert(0, smt.str_lit(rx))
+                    if ry:
+                        pb.insert(0, smt.str_lit(ry))
+            else:
+                break
+    return pa, pb
+
+
+def _cat(ps):
+    if not ps:
+        return '""'
+    return ps[0] if len(ps) == 1 else '(str.++ %s)' % ' '.join(ps)
+
+
+def _align(a, b, defs, budget=None):
+    """a formula F with F => (a = b): common prefix / suffix pieces are cancelled, definitions are unfolded
+    lazily at the first mismatch, conditionals are split"""
+    budget = budget if budget is not None else [40]
+    pa, pb = _merge_lits(_flat(a)), _merge_lits(_flat(b))
+    while True:
+        pa, pb = _cancel(pa, pb)
+        if not pa and not pb:
+            return 'true'
+        if budget[0] <= 0:
+            break
+        # unfold a definition at the first / last mismatching piece
+        done = False
+        cands = []
+        for side, other in ((pb, pa), (pa, pb)):
+            for pos in (0, -1):
+                if side and side[pos] in defs and side[pos] not in other:
+                    t = side[pos]
+                    rank = 0 if t.startswith('(sf_') else 1 if t.startswith('sh_') else 2
+                    cands.append((rank, side is pa, pos, side))
+        def other_is_ite(c):
+            o = pb if c[3] is pa else pa
+            return bool(o) and o[c[2]].startswith('(ite ')
+        has_ite = any(sd and sd[ps].startswith('(ite ') for sd in (pa, pb) for ps in (0, -1))
+        cands = [c for c in cands if not other_is_ite(c) and not (c[0] == 2 and has_ite)]
+        if cands:
+            cands.sort(key=lambda c: (c[0], c[1]))
+            _, _, pos, side = cands[0]
+            budget[0] -= 1
+            exp = _merge_lits(_flat(defs[side[pos]]))
+            if pos == 0:
+                side[0:1] = exp
+            else:
+                side[-1:] = exp
+            side[:] = _merge_lits(side)
+            done = True
+        if done:
+            continue
+        # split a conditional piece at the mismatch
+        for side, other in ((pa, pb), (pb, pa)):
+            for pos in (0, -1):
+                if side and side[pos].startswith('(ite '):
+                    xs = smt.split_top(side[pos][5:-1])
+                    if len(xs) == 3:
+                        budget[0] -= 2
+                        rest_a = side[1:] if pos == 0 else side[:-1]
+                        t1 = (_flat(xs[1]) + rest_a) if pos == 0 else (rest_a + _flat(xs[1]))
+                        t2 = (_flat(xs[2]) + rest_a) if pos == 0 else (rest_a + _flat(xs[2]))
+                        return '(and (=> %s %s) (=> (not %s) %s))' % (
+                            xs[0], _align(_cat(_merge_lits(t1)), _cat(other), defs, budget),
+                            xs[0], _align(_cat(_merge_lits(t2)), _cat(other), defs, budget))
+        break
+    return '(= %s %s)' % (_cat(pa), _cat(pb))
+
+
+def align_text(text):
+    """variant with the goal `A = B` (possibly under =>) replaced by a piecewise-aligned, stronger goal"""
+    lines = text.split('\n')
+    gi = None
+    for i, l in enumerate(lines):
+        if l.startswith('(assert (not '):
+            gi = i
+    if gi is None:
+        return None
+    goal = lines[gi][len('(assert (not '):-2]
+    defs = {}
+    for l in lines:
+        if not l.startswith('(assert (= '):
+            continue
+        ps = smt.split_top(l[len('(assert (= '):-2])
+        if len(ps) != 2:
+            continue
+        lhs, rhs = ps
+        if lhs.startswith('sh_') or lhs.startswith('(sf_'):
+            defs.setdefault(lhs, rhs)
+        elif not lhs.startswith('(') and not lhs.startswith('"') and (rhs.startswith('(sf_') or rhs.startswith('(str.++')):
+            defs.setdefault(lhs, rhs)
+
+    def rewrite(g):
+        if g.startswith('(=> '):
+            ps = smt.split_top(g[4:-1])
+            if len(ps) == 2:
+                r = rewrite(ps[1])
+                return None if r is None else '(=> %s %s)' % (ps[0], r)
+        if g.startswith('(= '):
+            ps = smt.split_top(g[3:-1])
+            if len(ps) == 2 and any(p.startswith('(str.++') or p in defs or smt.is_str_lit(p) for p in ps):
+                return _align(ps[0], ps[1], defs)
+        return None
+    try:
+        ng = rewrite(goal)
+    except Exception:
+        return None
+    if ng is None or ng == goal:
+        return None
+    return '\n'.join(lines[:gi] + ['(assert (not %s))' % ng] + lines[gi + 1:])
+
+
 def variants(text):
     """equi-provable variants of one VC: unsat of any of them proves the obligation"""
     out = [('', text)]
+    al = align_text(text)
+    if al is not None:
+        out.append(('+align', al))
     h = help_text(text)
     if h != text:
         out.append(('+inst', h))
